@@ -28,6 +28,12 @@
 #include <string.h>
 #include "libeconf.h"
 
+/* A NULL pointer is a valid default for a string. */
+static char *strdup_default(const char *def)
+{
+  return def ? strdup(def) : NULL;
+}
+
 #define econf_getValueDef(FCT_TYPE, TYPE, STRDUP)				\
 econf_err econf_get ## FCT_TYPE ## ValueDef(econf_file *ef, const char *group, \
 					     const char *key, TYPE *result, TYPE def) { \
@@ -47,5 +53,5 @@ econf_getValueDef(UInt, uint32_t, )
 econf_getValueDef(UInt64, uint64_t, )
 econf_getValueDef(Float, float, )
 econf_getValueDef(Double, double, )
-econf_getValueDef(String, char *, strdup)
+econf_getValueDef(String, char *, strdup_default)
 econf_getValueDef(Bool, bool, )
